@@ -164,7 +164,7 @@ SEEDS = {
     "ipv4": ["127.0.0.1", "0.0.0.0", "255.255.255.255", "1.2.3.4", "256.1.1.1", "01.2.3.4", "1.2.3", "1.2.3.4.5", "1..3.4", "1.2.3.4 ", "١.2.3.4", "1.2.3.４", "+1.2.3.4", "1.2.3.4/8", "0x1.2.3.4", "1.2.3.-4", "999.1.1.1", "1.2.3.00"],
     "ipv6": ["::1", "::", "1::", "1:2:3:4:5:6:7:8", "1:2:3:4:5:6:7::", "::1.2.3.4", "1:2:3:4:5:6:1.2.3.4", "fe80::1%eth0", "::1%", "::1/64", "1:2:3:4:5:6:7:8:9", "12345::", ":::", "1::2::3", "g::1", ":1", "1:", "::ffff:01.2.3.4", "0:0:0:0:0:0:0:0", "ABCD:ef01::", "1:2:3:4:5:6:7", "::1.2.3", "１::"],
     "date": ["2020-01-01", "2020-02-29", "2019-02-29", "2000-02-29", "1900-02-29", "2020-13-01", "2020-00-10", "2020-04-31", "20200101", "2020-W01-1", "2020-1-1", "0000-01-01", "0001-01-01", "9999-12-31", "2020-01-01T00:00:00", " 2020-01-01", "2020-01-01\n", "２０２０-01-01", "2020/01/01", "10000-01-01"],
-    "email": ["a@b", "@", "ab", "", "a@b@c", "é@ü"],
+    "email": ["a@b", "@", "ab", "", "a@b@c", "é@ü", "joe\uff20example.com", "joe\ufe6bexample.com", "\uff20", "a\u0040b", "a%40b", "a&#64;b", "ａ＠ｂ"],
     "regex": ["a", "(", "a{2}", "a{99999999999}", "[", "(?P<x>a)(?P=x)", "\\", "a**", "(" * 400, "[a-", "(?i)a", "\\d+", "a{2,1}",
               "(?<=a*)b", "(?<=a|bc)d", "(?<!\\d+)\\.", "(?<=ab)c", "(?<!a)b", "(?P<n>a)(?P<n>b)", "(?P=missing)", "\\1", "(a)\\2", "a(?#comment", "(?z)", "\\p{L}", "[[:alpha:]]"],
     "time": ["12:00:00", "24:00:00", "1:2:3", "12:00", "12:00:60", "ab", " 12:00:00", "12:00:00Z"],
@@ -175,7 +175,7 @@ ALIASES = {"ip-address": "ipv4", "idn-email": "email"}
 
 def mutate(r, s):
     k = r.randrange(6)
-    alphabet = "0123456789.:-%/ abcfgzxW@\n\t١２é(){}[]\\*+?T"
+    alphabet = "0123456789.:-%/ abcfgzxW@\n\t١２é(){}[]\\*+?T\uff20\ufe6b\uff0e\uff1a\u3002\u2024"
     if not s:
         return r.choice(alphabet)
     i = r.randrange(len(s))
